@@ -13,7 +13,8 @@
     resized to.
  3. the WakeKickMap constructor (src/SM/WakeKickMap.cpp): the kick direction it hands to KickMap.
  4. KickMap::updateSM (src/SM/KickMap.cpp): bound of the loop over offsets, which `_offset` entry iteration i reads
-    and which `_hinfo` entry the inner loops write (all writes must use the same index expression).
+    and which `_hinfo` entry the inner loops write (all writes - also the several of a field-by-field store - must use the same
+    index expression, up to `ring` and up to `_ip` = `_it` when the KickMap constructor hands SourceMap the same parameter for both).
  5. ElectricField (src/PS/ElectricField.cpp): the extents `_wakepotential` is constructed with, the loop bounds and the
     subscripts of the read-back loop of wakePotential() that writes it, and that the function returns
     `_wakepotential.data()`.
